@@ -2776,6 +2776,14 @@ package decimal128
 //@ callarg digits.round#3: arg_prec == ite(old(prec) == 0, 1, old(prec))
 //@ callarg digits.fmtE#2: arg_prec == digs.ndig - 1 && arg_e == ite(fmt == 71, 69, 101) && arg_width == 0 && !arg_forceDP && !arg_printSign && !arg_padSign && arg_padExp && !arg_padRight && !arg_padZero
 //@ callarg digits.fmtF#2: arg_prec == ite(digs.exp < 0, 0 - digs.exp, 0) && arg_width == 0 && !arg_forceDP && !arg_printSign && !arg_padSign && !arg_padRight && !arg_padZero
+//@ define VS = ite(sign(d), 1, 0)
+//@ define VB = from(out, VS)
+//@ define VL = (len(out) - VS)
+//@ define VEXPO = (ite(esg(VB, VL) == 1, 0 - ev(VB, VL), ev(VB, VL)) - nfd(VB, VL))
+//@ define SHORT = (!special(d) && old(prec) < 0 && A0 == 0 && (fmt == 101 || fmt == 69 || fmt == 103 || fmt == 71))
+//@ ensures SHORT && sign(d) ==> out[0] == 45
+//@ ensures SHORT ==> pst(VB, VL) == 1 || pst(VB, VL) == 5 || pst(VB, VL) == 9
+//@ ensures SHORT && coef(d) != 0 ==> rs(V, 6176 + VEXPO) == real(dv(VB, VL))
 //@ props C06 C07 C20
 
 // digits.fmtE (C06, C07), the exponent field only: after the mantissa the output carries the letter
@@ -3155,6 +3163,14 @@ package decimal128
 //@ requires prec <= 100000000 - 100 && prec >= 0 - 100000000
 //@ ensures isnan(d) ==> len(s) == 3 && s[0] == 78 && s[1] == 97 && s[2] == 78
 //@ ensures isinf(d) ==> len(s) == 4 && s[0] == ite(sign(d), 45, 43) && s[1] == 73 && s[2] == 110 && s[3] == 102
+//@ define VS = ite(sign(d), 1, 0)
+//@ define VB = from(s, VS)
+//@ define VL = (len(s) - VS)
+//@ define VEXPO = (ite(esg(VB, VL) == 1, 0 - ev(VB, VL), ev(VB, VL)) - nfd(VB, VL))
+//@ define SHORT = (!special(d) && prec < 0 && (fmt == 101 || fmt == 69 || fmt == 103 || fmt == 71))
+//@ ensures SHORT && sign(d) ==> s[0] == 45
+//@ ensures SHORT ==> pst(VB, VL) == 1 || pst(VB, VL) == 5 || pst(VB, VL) == 9
+//@ ensures SHORT && coef(d) != 0 ==> rs(V, 6176 + VEXPO) == real(dv(VB, VL))
 //@ props C06 C20
 
 // Decimal.Append (C07): an unusable format specification yields "%!(NOVERB)"; special values go
